@@ -546,6 +546,14 @@ func (srv *server) sendWillLocked(msg *gmqtt.Message, clientID string) {
 	if req.Message == nil {
 		return
 	}
+	// a will with the retain flag is published as a retained message [MQTT-3.1.2-17]
+	if req.Message.Retained {
+		if len(req.Message.Payload) == 0 {
+			srv.retainedDB.Remove(req.Message.Topic)
+		} else {
+			srv.retainedDB.AddOrReplace(req.Message.Copy())
+		}
+	}
 	srv.deliverMessage(clientID, req.Message, req.IterationOptions)
 	if srv.hooks.OnWillPublished != nil {
 		srv.hooks.OnWillPublished(context.Background(), clientID, req.Message)
